@@ -252,7 +252,8 @@ def zoo_prepare(tier, seed, variant, problems, features=None):
         if rc != 0:
             problems.append("zoogen failed: %s" % out[-600:].replace("\n", " | "))
             return None, None
-        cmd = ["cargo", "build", "--offline", "--profile", profile, "--target-dir", target_dir, "--message-format=short"]
+        # 16 shard crates in parallel came within a few GB of the 62 GB here (one rustc was OOM-killed once): 10 jobs
+        cmd = ["cargo", "build", "--offline", "--profile", profile, "--target-dir", target_dir, "--message-format=short", "-j", "10"]
         if features:
             cmd += ["-p", "zoorun", "--features", features]
         rc, out, dt = run(cmd, cwd=zoo, timeout=7200)
@@ -362,7 +363,7 @@ def engine_c09(prop, cfg, tier, seed, merged):
     groups = []
     converged = False
     for attempt in range(10):
-        cmd = [zoogen, "--tier", tier, "--seed", str(seed), "--out", zoo, "--shards", "16", "--families", "c09kw,c09col,c09const,c09rand", "--compile-only"]
+        cmd = [zoogen, "--tier", tier, "--seed", str(seed), "--out", zoo, "--shards", "16", "--families", "c09kw,c09col,c09const,c09int,c09rand", "--compile-only"]
         if exclude:
             cmd += ["--exclude", ",".join(exclude)]
         rc, out, dt = run(cmd, cwd=VERIF, timeout=1800)
@@ -465,6 +466,10 @@ def engine_c09(prop, cfg, tier, seed, merged):
                     return "identifier-Self"
                 return None
             classified = [(klass(e), e) for e in errors[name]]
+            if any(k == "names-meet-after-mangling" for k, _ in classified):
+                # rustc's follow-on errors of a duplicate definition
+                # (two items under one name: every later error of this module may be a consequence, rustc's list is open-ended)
+                classified = [("names-meet-after-mangling" if k is None else k, e) for k, e in classified]
             unknown = [e for k, e in classified if k is None]
             if fam == "c09rand":
                 first = unknown[0] if unknown else classified[0][1]
@@ -484,7 +489,7 @@ def engine_c09(prop, cfg, tier, seed, merged):
             h[k] = h.get(k, 0) + 1
             merged["distinct"].add(hash((name, tuple(g.get("asn1") or []))) & 0xFFFFFFFFFFFF)
             merged["floor"]["compiled:%s" % fam] = merged["floor"].get("compiled:%s" % fam, 0) + 1
-    for fam in ("c09kw", "c09col", "c09pre", "c09const", "c09rand"):
+    for fam in ("c09kw", "c09col", "c09pre", "c09const", "c09int", "c09rand"):
         merged["floor"].setdefault("compiled:%s" % fam, 0)
     for g in groups[:400:57]:
         if "rejected" not in g and len(merged["samples"]) < 8:
